@@ -424,8 +424,10 @@ class kMinPathErrorCycles(walkmodel.AbstractWalkModelDiGraph):
         non_empty_walks = []
         non_empty_weights = []
         non_empty_slacks = []
-        for walk, weight, slack in zip(solution["walks"], solution["weights"], solution["slacks"]):
-            if len(walk) > 1:
+        internal_walks = solution.get("_walks_internal", solution["walks"])
+        for walk, weight, slack, internal_walk in zip(solution["walks"], solution["weights"], solution["slacks"], internal_walks):
+            # (in node mode a walk made of a single node is not empty: emptiness is judged on the internal walk)
+            if len(internal_walk) > 1:
                 non_empty_walks.append(walk)
                 non_empty_weights.append(weight)
                 non_empty_slacks.append(slack)
